@@ -62,7 +62,7 @@ package playlist
 //@ holelang *t.CanSkipUntil.Seconds() /[0-9]+\.[0-9]{5}/
 
 //@ func MediaPart.marshal
-//@   props C14 C15
+//@   props C03 C14 C15
 //@   ensures [C14,C15] result in /#EXT-X-PART:DURATION={DF},URI={QS}(,INDEPENDENT=YES)?(,BYTERANGE=("{BR}"|{BR}))?(,GAP=YES)?\n/
 //@   ensures [C15] result in /#EXT-X-PART:DURATION={DF},URI={QS}(,INDEPENDENT=YES)?(,BYTERANGE="{BR}")?(,GAP=YES)?\n/
 //@   emits [C14] "DURATION=" p.Duration
@@ -175,7 +175,7 @@ package playlist
 //@ end
 
 //@ func MediaSegment.marshal
-//@   props C14 C15
+//@   props C03 C14 C15
 //@   requires forall(j, (0 <= j && j < len(s.Parts)) ==> s.Parts[j] != nil)
 //@   ensures [C14,C15] result in /(#EXT-X-DISCONTINUITY\n)?(#EXT-X-GAP\n)?(#EXT-X-PROGRAM-DATE-TIME:{TIME}\n)?(#EXT-X-BITRATE:{INT}\n)?(#EXT-X-PART:{ATTRS}\n)*#EXTINF:{DF},[^\r\n]*\n(#EXT-X-BYTERANGE:{BR}\n)?{URILINE}\n/
 //@   emits [C14] "#EXTINF:" s.Duration
@@ -227,7 +227,7 @@ package playlist
 //@ pred segOK(s *MediaSegment) := s != nil && s.Duration != 0 && s.URI != "" && forall(j, (0 <= j && j < len(s.Parts)) ==> partOK(s.Parts[j]))
 
 //@ func MediaPart.unmarshal
-//@   props C14 C15
+//@   props C13 C14 C15
 //@   modifies *p
 //@   loop 1 invariant p.ByteRangeStart == nil || p.ByteRangeStart == old(p.ByteRangeStart) || fresh(p.ByteRangeStart)
 //@   loop 1 invariant p.ByteRangeLength == nil || p.ByteRangeLength == old(p.ByteRangeLength) || fresh(p.ByteRangeLength)
@@ -252,7 +252,7 @@ package playlist
 //@ end
 
 //@ func MediaPartInf.unmarshal
-//@   props C15
+//@   props C14 C15
 //@   modifies *t
 //@   ensures result == nil ==> t.PartTarget != 0
 //@ end
@@ -267,7 +267,7 @@ package playlist
 //@ end
 
 //@ func MediaSkip.unmarshal
-//@   props C15
+//@   props C14 C15
 //@   modifies *t
 //@ end
 
@@ -295,12 +295,12 @@ package playlist
 //@ end
 
 //@ func MultivariantStart.unmarshal
-//@   props C15
+//@   props C14 C15
 //@   modifies *t
 //@ end
 
 //@ func MultivariantRendition.unmarshal
-//@   props C09 C14 C15 C16
+//@   props C09 C13 C14 C15 C16
 //@   requires t.Type == ""
 //@   modifies *t
 //@   loop 1 invariant t.Type == "" || t.Type == "AUDIO" || t.Type == "VIDEO" || t.Type == "SUBTITLES" || t.Type == "CLOSED-CAPTIONS"
@@ -315,7 +315,7 @@ package playlist
 //@ end
 
 //@ func MultivariantVariant.unmarshal
-//@   props C09 C14 C15 C16
+//@   props C09 C13 C14 C15 C16
 //@   requires contains(va, "\n")
 //@   modifies *v
 //@   ensures result == nil ==> v.URI != ""
@@ -327,7 +327,7 @@ package playlist
 //@ end
 
 //@ func Media.Unmarshal
-//@   props C14 C15
+//@   props C13 C14 C15
 //@   requires len(m.Segments) == 0 && m.Map == nil && m.PartInf == nil && m.PreloadHint == nil
 //@   modifies *m
 //@   loop 1 invariant curSegment != nil && fresh(curSegment)
@@ -351,7 +351,7 @@ package playlist
 //@ pred renditionOK(r *MultivariantRendition) := r != nil && r.GroupID != "" && (r.Type == "AUDIO" || r.Type == "VIDEO" || r.Type == "SUBTITLES" || r.Type == "CLOSED-CAPTIONS")
 
 //@ func Multivariant.Unmarshal
-//@   props C15 C16
+//@   props C13 C14 C15 C16
 //@   requires len(m.Variants) == 0 && len(m.Renditions) == 0
 //@   modifies *m
 //@   loop 1 invariant forall(i, (0 <= i && i < len(m.Variants)) ==> variantOK(m.Variants[i]))
@@ -363,7 +363,7 @@ package playlist
 //@ end
 
 //@ func findType
-//@   props C15
+//@   props C13 C14 C15
 //@   ensures result1 == nil ==> result0 != nil && (is(result0, *Media) || is(result0, *Multivariant))
 //@   ensures result1 == nil && is(result0, *Media) ==> len(result0.(*Media).Segments) == 0 && result0.(*Media).Map == nil && result0.(*Media).PartInf == nil && result0.(*Media).PreloadHint == nil
 //@   ensures result1 == nil && is(result0, *Multivariant) ==> len(result0.(*Multivariant).Variants) == 0 && len(result0.(*Multivariant).Renditions) == 0
@@ -372,13 +372,13 @@ package playlist
 //@ end
 
 //@ func Unmarshal
-//@   props C15
+//@   props C13 C14 C15
 //@   ensures result1 == nil ==> result0 != nil
 //@ end
 
 // C14: the decoded date-time is the parsed one, zone included (nothing is normalised away)
 //@ func parseTime
-//@   props C14 C15
+//@   props C13 C14 C15
 //@   ensures result1 == nil ==> (calls("time.Parse") >= 1 && result0 == callres("time.Parse", calls("time.Parse") - 1))
 //@ end
 
